@@ -252,6 +252,12 @@ fn txid(chain: &SimChain, h: &packed::Byte32) -> i64 {
 pub fn store_state(storage: &crate::storage::Storage, chain: &SimChain) -> serde_json::Map<String, Value> {
     let maps = Maps::new(chain);
     let db = &storage.db;
+    // a transaction hash may stand for several world transactions (the same transaction mined on two branches):
+    // an index entry means the copy mined at the position the entry names, else the copy on the stored chain
+    let tip = chain.id_of(&storage.get_last_state().1.calc_header_hash());
+    let txid_at = |h: &packed::Byte32, num: u64, idx: Option<usize>| -> i64 {
+        chain.tx_id_at(h, num, idx, tip).map(|i| i as i64 + 1).unwrap_or(-1)
+    };
     let mut scripts = Vec::new();
     let mut min_f: i64 = -1;
     let mut mdb = Vec::new();
@@ -276,13 +282,15 @@ pub fn store_state(storage: &crate::storage::Storage, chain: &SimChain) -> serde
                 let n = k.len();
                 let raw = &k[1..n - 16];
                 let h = packed::Byte32::from_slice(v).unwrap();
-                cells.push(json!([maps.skey(raw, k[0] == 64), be64(&k[n - 16..n - 8]), be32(&k[n - 8..n - 4]), be32(&k[n - 4..]), txid(chain, &h)]));
+                cells.push(json!([maps.skey(raw, k[0] == 64), be64(&k[n - 16..n - 8]), be32(&k[n - 8..n - 4]), be32(&k[n - 4..]),
+                    txid_at(&h, be64(&k[n - 16..n - 8]), Some(be32(&k[n - 8..n - 4]) as usize))]));
             }
             96 | 128 => {
                 let n = k.len();
                 let raw = &k[1..n - 17];
                 let h = packed::Byte32::from_slice(v).unwrap();
-                hist.push(json!([maps.skey(raw, k[0] == 128), be64(&k[n - 17..n - 9]), be32(&k[n - 9..n - 5]), be32(&k[n - 5..n - 1]), k[n - 1], txid(chain, &h)]));
+                hist.push(json!([maps.skey(raw, k[0] == 128), be64(&k[n - 17..n - 9]), be32(&k[n - 9..n - 5]), be32(&k[n - 5..n - 1]), k[n - 1],
+                    txid_at(&h, be64(&k[n - 17..n - 9]), Some(be32(&k[n - 9..n - 5]) as usize))]));
             }
             160 => {
                 let h = packed::Byte32::from_slice(&k[1..33]).unwrap();
@@ -336,7 +344,7 @@ pub fn store_state(storage: &crate::storage::Storage, chain: &SimChain) -> serde
             }
             let h = packed::Byte32::from_slice(&key[1..33]).unwrap();
             let ti = be32(&value[8..12]);
-            out.push(json!([txid(chain, &h), be64(&value[0..8]), if ti == u32::MAX { -1 } else { ti as i64 }]));
+            out.push(json!([txid_at(&h, be64(&value[0..8]), if ti == u32::MAX { None } else { Some(ti as usize) }), be64(&value[0..8]), if ti == u32::MAX { -1 } else { ti as i64 }]));
         }
         let _ = txs;
         out
